@@ -970,7 +970,17 @@ def process_commandline(out: OutputBuffer, args: List[str]) -> 'AuditConf':  # p
             sys.exit(exitcodes.UNKNOWN_ERROR)
 
         # Strip out whitespace from each line in target file, and skip empty lines.
-        aconf.target_list = [target.strip() for target in aconf.target_list if target not in ("", "\n")]
+        aconf.target_list = [target.strip() for target in aconf.target_list if target.strip() != ""]
+        if len(aconf.target_list) == 0:
+            out.fail("no targets found in file: {}".format(aconf.target_file), write_now=True)
+            sys.exit(exitcodes.UNKNOWN_ERROR)
+
+        # Reject invalid ports before any target is scanned.
+        for target in aconf.target_list:
+            _, target_port = Utils.parse_host_and_port(target, default_port=port)
+            if target_port < 1 or target_port > 65535:
+                out.fail("port must be greater than 0 and less than 65535: {}".format(target), write_now=True)
+                sys.exit(exitcodes.UNKNOWN_ERROR)
 
     # If a policy file was provided, validate it.
     if (aconf.policy_file is not None) and (aconf.make_policy is False):
